@@ -16,7 +16,7 @@ import numpy as np
 
 from mc.lib import Acc, leaves_equal_bitwise, tree_hash, on_path
 
-SHAPES = {"v": [3], "m": [2, 3]}
+SHAPES = {"v": [3], "m": [2, 3], "u": [1]}   # u: a 1x1 statistic
 FAULTS = ["nan", "inf", "huge", "tiny", "ovf"]
 BENIGN = ["gA", "g0", "huge", "tiny"]       # update must stay finite
 EVENTS = ["gA", "g0"] + FAULTS
@@ -65,6 +65,14 @@ def plan(tier, seed):
         "kind": "mcx", "mode": mode, "thr": thr, "eps": eps, "eigh": eigh,
         "P": P, "depth": depth, "maxf": maxf, "part": "engineA_" + mode,
         "profile": {"x64": x64}, "weight": 50})
+  # all statistics 1x1 (block size 1): the root routine has a shortcut for it
+  for mode, thr, eps in itertools.product(["rep", "quant", "sharded"],
+                                          [0.1, 1e30], [1e-6, 0.0]):
+    tasks.append({
+        "name": "A/%s/thr%g/eps%g/newton/P1/f32/block1" % (mode, thr, eps),
+        "kind": "mcx", "mode": mode, "thr": thr, "eps": eps, "eigh": False,
+        "P": 1, "depth": depth, "maxf": maxf, "block": 1,
+        "part": "engineA_" + mode, "profile": {"x64": False}, "weight": 50})
   return {
       "tasks": tasks, "model": model,
       "rule": "(a) every path of the TLC graph of RefreshProtocol with events "
@@ -96,14 +104,14 @@ def run_mcx(task, acc):
                              task["eigh"], task["P"])
   cfg = dict(inverse_failure_threshold=thr, matrix_epsilon=eps, eigh=eigh,
              preconditioning_compute_steps=P, start_preconditioning_step=1,
-             best_effort_shape_interpretation=False, block_size=4,
-             graft_type=3)
+             best_effort_shape_interpretation=False,
+             block_size=task.get("block", 4), graft_type=3)
   rmode = {"rep": "rep", "quant": "pmap", "sharded": "sharded"}[mode]
   if mode == "quant":
     cfg["best_effort_memory_usage_reduction"] = True
   runner = ds.Runner(cfg, SHAPES, rmode)
-  alpha = ds.grad_trees(SHAPES, EVENTS, (0, 4))
-  pre = ["v", "m"]
+  alpha = ds.grad_trees(SHAPES, EVENTS, (0, task.get("block", 4)))
+  pre = ["v", "m", "u"]
   case0 = {"mode": mode, "threshold": thr, "matrix_epsilon": eps,
            "eigh": eigh, "interval": P, "x64": task["profile"]["x64"]}
   sigbase = "C03|" + task["name"]
